@@ -349,7 +349,8 @@ class Machine:
         if "source" in info:
             v = e.get("@next", UNKNOWN)
         elif "source_enter" in info:
-            v = UNKNOWN
+            hook = _hook(self.ops, "entered")
+            v = hook(info["source_enter"], e, self.ev) if hook else UNKNOWN
         else:
             v = self.ev.eval(info.get("value"), e)
         for t in info.get("targets", []):
